@@ -267,8 +267,12 @@ def run_job(unit, job, cpath, workdir, tier):
             cmd += ['--enforce-contract', f]
         for f in job.enforce_rec:
             cmd += ['--enforce-contract-rec', f]
+        # macro-expanded text of the unit: a stub that is declared but never called has no symbol in the binary
+        # (goto-instrument refuses it), so it is left out of the command line
         try:
-            ctext = open(cpath).read()
+            rc0, ctext, err0, w0 = _run(['goto-cc', '-E', '-DXV_VERIF', '-I', shim] + ['-D' + d for d in job.defines] + [cpath], 120)
+            if rc0 != 0:
+                ctext = ''
         except Exception:
             ctext = ''
         for f in job.replace:
